@@ -252,6 +252,19 @@ def ptt_rows(repo):
                 ks = [a for a in nf.value_atoms(e.data['key']) if a[0] == 'iter']
                 if isinstance(v, Tup) and len(v) == 3 and all(isinstance(r, Poly) for r in v.items) and ks:
                     seg.append((e.data['key'], v.items, Poly.atom(ks[0]), e))
+        # ... or row by row: ptt_vector[3*k] = ..., ptt_vector[3*k + 1] = ..., ptt_vector[3*k + 2] = ...
+        single = {}
+        for e in p.events:
+            if e.kind == 'write' and e.data.get('how') == 'setitem' and e.in_loop and isinstance(e.data.get('key'), Poly) \
+                    and isinstance(e.data.get('value'), Poly) and not e.data.get('aug'):
+                ks = [a for a in nf.value_atoms(e.data['key']) if a[0] == 'iter']
+                if len(ks) == 1:
+                    j = (e.data['key'] - 3 * Poly.atom(ks[0])).const_value()
+                    if j is not None and j in (0, 1, 2):
+                        single.setdefault(ks[0], {})[int(j)] = (e.data['value'], e)
+        for k_, rows_ in single.items():
+            if sorted(rows_) == [0, 1, 2] and not any(x[2] == Poly.atom(k_) for x in seg):
+                seg.append((nf.Slice(3 * Poly.atom(k_), 3 * Poly.atom(k_) + 3), tuple(rows_[j][0] for j in (0, 1, 2)), Poly.atom(k_), rows_[0][1]))
     return f, mesh, mono, seg
 
 
@@ -327,7 +340,7 @@ def basis_rule(chk, repo, clause):
             mv = nf.app('m:ravel', m)
             base = [rows[i] / mv for i in range(3)]
             ones = [a for a in base[0].atoms(deep=False) if is_app(a, 'ones')]
-            piston = len(ones) == 1 and base[0] == Poly.atom(ones[0])
+            piston = len(ones) == 1 and base[0] == Poly.atom(ones[0]) or base[0] == nf.ONE
             for p0 in px(0):
                 for p1 in px(1):
                     if piston and base[1] == nf.app('m:ravel', r) * p0 and base[2] == -nf.app('m:ravel', c) * p1:
@@ -443,6 +456,28 @@ def dispersion_rule(chk, repo, clause):
                            'of the origin is reported as positive and the matching solver stalls at 0'
         chk.ob(clause, 'N-formula', fa.key, 'the arc length keeps the sign of (b - a): the bounds reach the quadrature in the given order',
                oka, deta, fa.loc())
+    # ... and so is the distance a higher-order dispersion is inverted to: wavelengths below the reference lie at negative
+    # distances along the trace, so the solver's answer is handed on as it is (its modulus is a point on the other side)
+    fdsp = repo.func('plane.DispersiveTilt._dispersion')
+    _, hp, _ = analyse(repo, fdsp, facts={nf.attr(S('self'), '_dispersion_order').single_atom(): C(2)})
+    oks, dets = None, 'undecided: no root finder / least-squares call found on the higher-order branch'
+    for p in returns(hp):
+        atoms = nf.value_atoms(p.ret)
+        solver = [a for a in atoms if a[0] == 'app' and (a[1].startswith(('scipy.optimize.', 'optimize.')) or
+                                                          a[1] in ('roots', 'numpy.roots', 'polynomial.polynomial.polyroots'))]
+        if not solver:
+            continue
+        folded = [a for a in atoms if a[0] == 'app' and a[1] in ('abs', 'absolute', 'fabs', 'amax', 'max', 'maximum') and
+                  any(x in nf.value_atoms(y) for y in a[2] if isinstance(y, (Poly, Tup)) for x in solver)]
+        sq = isinstance(p.ret, Poly) and any(a[0] == 'poly' and any(x in a[1].atoms(deep=True) for x in solver) for a in atoms)
+        if any(a[1] in ('abs', 'absolute', 'fabs') for a in folded) or sq:
+            oks = False
+            dets = f'returns {fmt(p.ret)[:120]}: the modulus of the solution - a wavelength on the short side of the reference is ' \
+                   'placed at the mirror-image distance along the trace'
+        elif oks is None:
+            oks, dets = True, f'returns {fmt(p.ret)[:100]}'
+    chk.ob(clause, 'N-formula', fdsp.key, 'the distance of a higher-order dispersion keeps its sign (the solution is handed on as found)',
+           oks, dets, fdsp.loc())
     f, paths, _ = analyse(repo, 'plane.DispersiveTilt.shift')
     ok = False
     for p in returns(paths):
